@@ -153,3 +153,123 @@ Proof.
   cbn. split; [|split]; [| |eexists; vm_compute; reflexivity];
     repeat (constructor; cbn; try (intuition discriminate)).
 Qed.
+
+(* ================= the whole method (gen_concat), concatenation on the observation axis ================= *)
+Lemma loop2_same : forall l a t md, gen_concat_loop2 a t md l = gen_concat_scan_loop2 a t md l.
+Proof. induction l; intros; cbn [gen_concat_loop2 gen_concat_scan_loop2]; [reflexivity|apply IHl]. Qed.
+
+Lemma loop1_same : forall l a ia ax inv md,
+  gen_concat_loop1 a ia ax inv md l = gen_concat_scan_loop1 a ia ax inv md l.
+Proof.
+  induction l; intros; cbn [gen_concat_loop1 gen_concat_scan_loop1]; [reflexivity|].
+  rewrite loop2_same. destruct (negb _); [reflexivity|].
+  match goal with |- rbind ?X _ = _ => destruct X as [[? ?]|?] end; cbn [rbind]; [apply IHl|reflexivity].
+Qed.
+
+Lemma isort_cons x l : isort (x :: l) = insert x (isort l).
+Proof. reflexivity. Qed.
+
+Lemma insert_le_all x l : (forall z, In z l -> (x <= z)%Z) -> insert x l = x :: l.
+Proof.
+  destruct l as [|y r]; cbn [insert]; [reflexivity|]. intros H.
+  rewrite (proj2 (Z.leb_le x y)); [reflexivity|apply H; left; reflexivity].
+Qed.
+
+Lemma filter_insert (p : Z -> bool) x l : Sorted.StronglySorted Z.le l ->
+  filter p (insert x l) = if p x then insert x (filter p l) else filter p l.
+Proof.
+  induction 1 as [|y r Hs IH Hall]; cbn [insert filter].
+  - destruct (p x); reflexivity.
+  - destruct (Z.leb x y) eqn:E; cbn [filter].
+    + destruct (p x) eqn:Px; [|reflexivity]. destruct (p y) eqn:Py.
+      * cbn [insert]. rewrite E. reflexivity.
+      * rewrite insert_le_all; [reflexivity|]. intros z Hz. apply filter_In in Hz. destruct Hz as [Hz _].
+        rewrite Forall_forall in Hall. apply Z.leb_le in E. specialize (Hall z Hz). lia.
+    + rewrite IH. destruct (p x) eqn:Px, (p y) eqn:Py; try reflexivity. cbn [insert]. rewrite E. reflexivity.
+Qed.
+
+(* list(<set difference>) in sorted order is the hand model's filter over the common order *)
+Lemma isort_filter (p : Z -> bool) l : isort (filter p l) = filter p (isort l).
+Proof.
+  induction l as [|x l IH]; [reflexivity|]. rewrite isort_cons, filter_insert by apply isort_sorted.
+  cbn [filter]. destruct (p x); [rewrite isort_cons, IH; reflexivity|exact IH].
+Qed.
+
+Lemma zip_app_zero k : forall m n, length m = n ->
+  zip_app m (repeat (zero_row k) n) = map (fun r => r ++ zero_row k) m.
+Proof.
+  induction m as [|r m IH]; intros n H; destruct n; cbn [zip_app repeat map length] in *; try discriminate; try reflexivity.
+  f_equal. apply IH. lia.
+Qed.
+
+(* the second loop: pad with zeros where an operand lacks an id, reorder where its order differs *)
+Lemma loop3_spec self inv mdm : forall l acc,
+  Forall wf l ->
+  gen_concat_loop3 self Obs Samp HStack inv mdm (isort inv) acc l = ROk (acc ++ map (pad_table (isort inv) mdm) l).
+Proof.
+  induction l as [|t r IH]; intros acc H; cbn [gen_concat_loop3 map].
+  - rewrite app_nil_r; reflexivity.
+  - inversion H as [|? ? Ht Hr]; subst. destruct Ht as (Hlen & _ & _ & Hnd & _ & _).
+    unfold tb_ids, py_set, set_to_list, set_diff. cbn [ids]. rewrite (nodup_fixed_point Z.eq_dec Hnd).
+    rewrite isort_filter. unfold pad_table, pad_only.
+    destruct (filter (fun y => negb (zmem y (sids t))) (isort inv)) as [|z f] eqn:F.
+    + cbn [list_nonempty rbind]. unfold ids_all_eq, list_append, tb_sort_order.
+      destruct (list_eqb Z.eqb (sids t) (isort inv)); cbn [rbind]; rewrite IH by assumption;
+        rewrite <- app_assoc; reflexivity.
+    + cbn [list_nonempty axis_is_sample rbind]. unfold zero_matrix, apply_stack. cbn [fst snd fold_left rbind].
+      rewrite zip_app_zero by exact Hlen.
+      unfold tb_metadata, mds, tb_matrix_data, list_copy, list_extend, tb_new, dict_getitem, none_list, md_list, nsamp.
+      destruct (smd t) as [sm|]; cbn [optmd_is_none list_of_optmd rbind];
+        unfold ids_all_eq, list_append, tb_sort_order;
+        match goal with |- context [list_eqb Z.eqb ?A ?B] => destruct (list_eqb Z.eqb A B) end;
+        cbn [rbind]; rewrite IH by assumption; rewrite <- app_assoc; reflexivity.
+Qed.
+
+(* the third loop: the metadata of the concatenation axis, None per id where an operand has none *)
+Lemma loop4_spec : forall l acc,
+  gen_concat_loop4 Obs (py_itemgetter 0) acc l =
+  ROk (acc ++ concat (map (fun t => md_list (omd t) (length (mat t))) l)).
+Proof.
+  induction l as [|t l IH]; intros acc; cbn [gen_concat_loop4 map concat].
+  - rewrite app_nil_r. reflexivity.
+  - unfold tb_metadata, mds. destruct (omd t);
+      cbn [optmd_is_none rbind apply_getter py_itemgetter tb_shape fst list_extend_opt md_list none_list];
+      rewrite IH, <- app_assoc; reflexivity.
+Qed.
+
+(* Table.concat(others, axis='observation') as translated = Model/Concat.v concat_t, on coherent operands.
+   MISSING: axis='sample' (the hand model works on the transposed operands there; the generated code
+   stacks the other way round - relating the two needs the transposition lemmas for hstack / padding). *)
+Theorem gen_concat_is_source_partial : forall (self : table) (others : others_arg),
+  Forall wf (self :: normalise_others others) ->
+  gen_concat self others Obs = concat_t (self :: normalise_others others) Obs.
+Proof.
+  intros self others H.
+  assert (Hnd : Forall (fun t => NoDup (ids (other Obs) t)) (self :: normalise_others others)).
+  { eapply Forall_impl; [|exact H]. intros t Ht. apply Ht. }
+  pose proof (scan_loop1_spec Obs _ [] [] [] [] (fun x => eq_refl) eq_refl Hnd) as L.
+  assert (Hid : map (orient Obs) (self :: normalise_others others) = self :: normalise_others others)
+    by exact (map_id _).
+  rewrite Hid in L. cbn [other] in L.
+  unfold gen_concat, concat_t. rewrite Hid. unfold concat_rows.
+  cbn [axis_is_sample rbind invert_axis other].
+  change (list_insert (list_copy (normalise_others others)) 0 self) with (self :: normalise_others others).
+  rewrite loop1_same. unfold set_empty, dict_empty.
+  destruct (gen_concat_scan_loop1 Obs Samp [] [] [] (self :: normalise_others others)) as [[[ax s] m]|c];
+    destruct L as [L1 L2]; cbn [rbind]; [|subst c; rewrite L2; reflexivity].
+  rewrite L1, L2. cbn [negb]. unfold py_sorted. rewrite loop3_spec by exact H. cbn [rbind app map].
+  unfold apply_stack. cbn [rbind]. rewrite loop4_spec. cbn [rbind app list_getitem nth_error].
+  reflexivity.
+Qed.
+
+(* the hypothesis is satisfiable: two coherent operands with partly different samples, padded and stacked *)
+Example concat_hypothesis_satisfiable :
+  let t1 := mkT [1%Z] [10%Z; 11%Z] [[1%Z; 2%Z]] None None 0%Z in
+  let t2 := mkT [2%Z] [12%Z; 11%Z] [[3%Z; 4%Z]] None None 0%Z in
+  Forall wf (t1 :: normalise_others (OneTable t2)) /\
+  gen_concat t1 (OneTable t2) Obs =
+  ROk (mkT [1%Z; 2%Z] [10%Z; 11%Z; 12%Z] [[1%Z; 2%Z; 0%Z]; [0%Z; 4%Z; 3%Z]] None None 0%Z).
+Proof.
+  cbn zeta. split; [|vm_compute; reflexivity].
+  repeat (apply Forall_cons; [apply wfb_wf; vm_compute; reflexivity|]). apply Forall_nil.
+Qed.
